@@ -135,31 +135,79 @@
       pre-vote requests of terms 3 and 7, a stale and a current-term vote request every
       round for 30 rounds = three election timeouts: hypotheses hold, the run computes).
 
+   9. THE CLOSED CLUSTER (M/RaftProofsC16Closed.v; pinned at the end of this file).
+      The nodes outside the majority run this library too: no hypothesis on their messages.
+      Model: cluster = (L, Fs, Os, pool).  [pool] is the list of all messages emitted so
+      far by the outsiders Os and (copied each round from their queues) by L and Fs; it only
+      grows.  One closed round [closed_round acts adv]: first the outsiders perform any
+      list [acts] of actions - OStep i m: outsider i handles ANY message m of the pool
+      (any pick, any number of times, in any order: duplication, delay, reordering, loss);
+      OTick i: it ticks; ORestart i r: it crashes and comes back as any state r with the
+      same id, pre-vote on, a term not above its old one, not leader, nothing queued, no
+      votes counted (restart_ok) - and whatever an outsider queues goes to the pool at
+      once; then [adv] = any list of pool messages sent by outsiders and addressed to
+      window members is delivered (deliver_all), the members' queues are copied to the
+      pool, and the majority runs star_round.  So the member part of a closed round IS a
+      window_round whose adversarial list is drawn from what the outsiders really sent.
+      C16_closed_window: from closed_start (window_start; every window member has voted for
+      a window member; every outsider runs pre-vote, has a term <= t, is not a leader, has
+      no grant of a window member on record, an empty queue, and a non-empty configuration
+      of which the window members are a quorum; the pool is empty), for ANY number of
+      rounds and ANY schedule (closed_sched: picks are pool members, restarts are
+      restart_ok, and a MsgSnapshot handed to an outsider keeps the window members a quorum
+      of its configuration), if no panic occurs: the conclusion of C16_window_rounds_safe
+      for L and Fs, AND every outsider still has term <= t, is not leader and runs
+      pre-vote, AND every message ever put into the pool is of the class PC.
+      Ingredients, each proved for ALL states / messages:
+      - C16_outsider_step / C16_outsider_tick (part (1) of the closing step): for a node O
+        outside the window with invariant OInv (pre-vote on, term <= t, not leader, window
+        members a quorum of its non-empty configuration, no grant from a window member in
+        its tally, queue of class PC), handling ANY message of class PC, or a tick, keeps
+        OInv.  So O's term never exceeds t, O never becomes leader (neither by the
+        pre-vote nor by a real election: C16_no_win, via QuorumProofs.
+        joint_vote_won_intersect: a tally whose grants all come from outside a quorum is
+        never Won), and everything O queues is of class PC: pre-vote requests of term
+        r_term+1 with empty context, (pre-)vote responses (grants only to other
+        outsiders' requests), MsgAppendResponse / MsgHeartbeatResponse stamped with a term
+        <= t, forwarded MsgPropose / MsgReadIndex - in particular [adv_ok] whenever
+        addressed to a window member.  Election safety at term t (C02) is not assumed: it
+        follows here (no outsider ever wins).
+      - what window members emit is of class PC too (leader_step_PC, follower_step_PC,
+        leader_tick_PC over the generic queue-predicate frame GQ): terms <= t, no transfer
+        or local message, and NO GRANT - a member inside its lease that has voted for a
+        member answers every pool (pre-)vote request with a rejection or nothing
+        (member_no_grant).
+      - closed_round_inv: one closed round keeps CInv = MInv (WInv + member votes + member
+        queues of class PC) /\ OsInv (every outsider OInv, pool of class PC).
+      Non-vacuity: C16_closed_example_* (leader 1, follower 2, outsider 3 cut off for 30
+      rounds = three election timeouts, pre-campaigning into the void - four pre-vote
+      requests of term 3 in the pool, its own term still 2 - then rejoining for six rounds:
+      leader and follower undisturbed in term 2, the outsider back as follower of 1 in
+      term 2; hypotheses checked by computation through an index-level schedule).
+
    NOT PROVED (listed honestly).
-   * The CLOSING STEP of the window: that what the outsiders emit always satisfies
-     [adv_ok] - i.e. a cluster theorem "a node outside the majority whose inputs are the
-     majority's outputs and other outsiders' [adv_ok] messages, starting with term <= t
-     and running pre-vote, only ever emits [adv_ok] messages" (including after crash +
-     restart, which restores term/vote from the persisted HardState).  The per-node
-     ingredients are proved (term: C16_quiet_run_term / C16_step_term_cases; the majority
-     never grants: C16_window_members_deny; election safety: C02) but an output
-     characterisation of step for all roles and their composition over a network model
-     are missing.  So clause 8 is a theorem about the majority AGAINST a specified
-     adversary class, not yet about the closed cluster.
-   * Schedules other than the lock-step one: message loss, delay or reordering INSIDE the
-     majority (star_round delivers every message of a round in that round), adversarial
-     deliveries between the three phases of a round (here: before each round), followers
-     ticking at different rates.  Panics are excluded by hypothesis (run = Ok).
-   * Leadership transfer inside the window (excluded: r_lead_transferee = None at the
-     start, no MsgTransferLeader / MsgTimeoutNow from outside).
-   * Note what the per-node theorems show the property must except: a node at a higher
-     REAL term (e.g. one that campaigned without pre-vote, or a MsgAppendResponse from a
-     node with a higher term) does make the leader adopt that term (step_term_cases,
-     third disjunct) - pre-vote only prevents such terms from arising on nodes that run
-     pre-vote.
-   * That [quiet] inputs are what a partitioned node actually receives (needs the
-     cluster model).  The hypotheses of quiet_run / leader_window are stated on the
-     states met along the run, not derived from a schedule. *)
+   * Clause 9 closes the window for outsiders that START as non-leaders with pre-vote on.
+     Not covered: an outsider that is a stale LEADER of a lower term at the start (its
+     MsgAppend / MsgHeartbeat of a term < t are in adv_ok and harmless to the majority by
+     clause 8, but its own outputs are not characterised here); outsiders WITHOUT pre-vote
+     (they do disrupt: C16_step_term_cases, third disjunct); leadership transfer.
+   * Start hypotheses that are assumed, not derived: every window member's vote is for a
+     window member (true of the majority that elected L; a member that voted for an
+     outsider in term t could still grant it a term-t vote); the window members are a
+     quorum of every outsider's configuration, also after a restart (restart_ok) and after
+     a snapshot install (schedule condition on MsgSnapshot picks: it depends on what L's
+     storage hands out, which the model takes from the application).  No membership change
+     is applied inside the window (raft_apply_conf_change is not an action of the rounds).
+   * A restart is modelled as replacement by any state satisfying restart_ok, not as
+     raft_new over the node's persisted storage (C06 ties the two: term and vote restored
+     from the HardState are not above the persisted ones).
+   * The majority itself runs lock-step: message loss, delay, duplication or reordering
+     BETWEEN L and members of Fs is not covered (star_round delivers every message of a
+     round in that round; old member-to-member messages of the pool are not re-delivered
+     to members), members tick once per round, adversarial deliveries happen before each
+     round.  Panics are excluded by hypothesis (run = Ok).
+   * That [quiet] inputs (clause 2) are what a partitioned node receives is now a
+     consequence for the term (OInv) but quiet_run itself is still stated on the states met. *)
 From RV Require Import Base.Prelude Base.IdSet M.Progress M.Quorum M.ConfChange M.Msg M.RaftLog M.Raft
   M.RaftProofs M.RaftProofsC16.
 From RecordUpdate Require Import RecordSet.
@@ -973,3 +1021,245 @@ Example C16_window_example :
     r_state L' = Leader /\ r_term L' = 2 /\ r_election_elapsed L' = 0 /\
     r_state F' = Follower /\ r_term F' = 2 /\ r_vote F' = 1 /\ r_leader_id F' = 1.
 Proof. exact xw_run. Qed.
+
+
+(* ================================================================== *)
+(* 9. the closed cluster (M/RaftProofsC16Closed.v) *)
+From RV Require Import M.RaftProofsC16Closed.
+
+Theorem C16_def_vresp : forall x,
+  vresp x <-> m_type x = MsgRequestVoteResponse \/ m_type x = MsgRequestPreVoteResponse.
+Proof. exact def_vresp. Qed.
+Print Assumptions C16_def_vresp.
+
+Theorem C16_def_vreq : forall x,
+  vreq x <-> m_type x = MsgRequestVote \/ m_type x = MsgRequestPreVote.
+Proof. exact def_vreq. Qed.
+Print Assumptions C16_def_vreq.
+
+(* the class of every message in flight in the closed window *)
+Theorem C16_def_PC : forall ids l t x,
+  PC ids l t x <->
+  (m_term x <= t \/ exempt x = true) /\
+  netmsg (m_type x) /\
+  (vresp x -> m_reject x = false -> ~ In (m_from x) (l :: ids)) /\
+  (vreq x -> ~ In (m_from x) (l :: ids) /\ list_eqb (m_context x) CAMPAIGN_TRANSFER = false) /\
+  (~ In (m_from x) (l :: ids) -> In (m_to x) (l :: ids) -> adv_ok ids l t x).
+Proof. exact def_PC. Qed.
+Print Assumptions C16_def_PC.
+
+Theorem C16_def_votes_ok : forall ids l r,
+  votes_ok ids l r <->
+  forall id, Quorum.assoc (t_votes (r_prs r)) id = Some true -> ~ In id (l :: ids).
+Proof. exact def_votes_ok. Qed.
+Print Assumptions C16_def_votes_ok.
+
+Theorem C16_def_confq : forall ids l r,
+  confq ids l r <->
+  incoming (conf_of r) <> [] /\
+  Quorum.has_quorum (incoming (conf_of r)) (outgoing (conf_of r)) (l :: ids) = true.
+Proof. exact def_confq. Qed.
+Print Assumptions C16_def_confq.
+
+Theorem C16_def_snapq : forall ids l s,
+  snapq ids l s <->
+  forall c' i, ConfChange.restore empty_tracker (s_cs s) = ROk (c', i) ->
+    incoming c' <> [] /\ Quorum.has_quorum (incoming c') (outgoing c') (l :: ids) = true.
+Proof. exact def_snapq. Qed.
+Print Assumptions C16_def_snapq.
+
+(* the outsider's invariant *)
+Theorem C16_def_OInv : forall ids l t o r,
+  OInv ids l t o r <->
+  r_pre_vote r = true /\ r_id r = o /\ r_term r <= t /\ r_state r <> Leader /\
+  confq ids l r /\ votes_ok ids l r /\ Forall (PC ids l t) (r_msgs r).
+Proof. exact def_OInv. Qed.
+Print Assumptions C16_def_OInv.
+
+(* a tally whose grants all come from outside the window members is never Won *)
+Theorem C16_no_win :
+  forall ids l r v,
+    confq ids l r -> (forall id, Quorum.assoc v id = Some true -> ~ In id (l :: ids)) ->
+    tally r v <> VoteWon.
+Proof. exact no_win. Qed.
+Print Assumptions C16_no_win.
+
+(* (1) the outsider's step and tick *)
+Theorem C16_outsider_step :
+  forall ids l t, t <> 0 -> l <> INVALID_ID ->
+  forall o, ~ In o (l :: ids) ->
+  forall r m r' c,
+    OInv ids l t o r -> PC ids l t m ->
+    (m_type m = MsgSnapshot -> snapq ids l (m_snapshot m)) ->
+    step r m = Ok (r', c) -> OInv ids l t o r'.
+Proof. exact outsider_step. Qed.
+Print Assumptions C16_outsider_step.
+
+Theorem C16_outsider_tick :
+  forall ids l t o, ~ In o (l :: ids) ->
+  forall r r' b, OInv ids l t o r -> tick r = Ok (r', b) -> OInv ids l t o r'.
+Proof. exact outsider_tick. Qed.
+Print Assumptions C16_outsider_tick.
+
+(* the closed cluster: [oact] has the constructors OStep (i : nat) (m : msg),
+   OTick (i : nat), ORestart (i : nat) (r : raft); cluster = raft * list raft * list raft
+   * list msg (leader, majority followers, outsiders, pool) *)
+Theorem C16_def_oact_apply : forall st a,
+  oact_apply st a =
+  match a with
+  | OStep i m =>
+      match nth_error (fst st) i with
+      | None => Ok st
+      | Some o1 => x <- step o1 m ;;
+                   Ok (upd (fst st) i ((fst x) <| r_msgs := [] |>), snd st ++ r_msgs (fst x))
+      end
+  | OTick i =>
+      match nth_error (fst st) i with
+      | None => Ok st
+      | Some o1 => x <- tick o1 ;;
+                   Ok (upd (fst st) i ((fst x) <| r_msgs := [] |>), snd st ++ r_msgs (fst x))
+      end
+  | ORestart i r =>
+      match nth_error (fst st) i with
+      | None => Ok st
+      | Some o1 => Ok (upd (fst st) i r, snd st)
+      end
+  end.
+Proof. exact def_oact_apply. Qed.
+Print Assumptions C16_def_oact_apply.
+
+Theorem C16_def_oacts_apply : forall st acts,
+  oacts_apply st acts = match acts with
+                        | [] => Ok st
+                        | a :: rest => st' <- oact_apply st a ;; oacts_apply st' rest
+                        end.
+Proof. exact def_oacts_apply. Qed.
+Print Assumptions C16_def_oacts_apply.
+
+Theorem C16_def_restart_ok : forall ids l O r,
+  restart_ok ids l O r <->
+  r_id r = r_id O /\ r_pre_vote r = true /\ r_term r <= r_term O /\ r_state r <> Leader /\
+  confq ids l r /\ t_votes (r_prs r) = [] /\ r_msgs r = [].
+Proof. exact def_restart_ok. Qed.
+Print Assumptions C16_def_restart_ok.
+
+Theorem C16_def_oact_ok : forall ids l st a,
+  oact_ok ids l st a <->
+  match a with
+  | OStep i m => In m (snd st) /\ (m_type m = MsgSnapshot -> snapq ids l (m_snapshot m))
+  | OTick i => True
+  | ORestart i r => forall O, nth_error (fst st) i = Some O -> restart_ok ids l O r
+  end.
+Proof. exact def_oact_ok. Qed.
+Print Assumptions C16_def_oact_ok.
+
+Theorem C16_def_oacts_ok : forall ids l st acts,
+  oacts_ok ids l st acts <->
+  match acts with
+  | [] => True
+  | a :: rest => oact_ok ids l st a /\
+                 forall st', oact_apply st a = Ok st' -> oacts_ok ids l st' rest
+  end.
+Proof. exact def_oacts_ok. Qed.
+Print Assumptions C16_def_oacts_ok.
+
+Theorem C16_def_adv_from_pool : forall ids l pool adv,
+  adv_from_pool ids l pool adv <->
+  Forall (fun tm => In (snd tm) pool /\ ~ In (m_from (snd tm)) (l :: ids) /\
+                    In (m_to (snd tm)) (l :: ids) /\ fst tm = m_to (snd tm)) adv.
+Proof. exact def_adv_from_pool. Qed.
+Print Assumptions C16_def_adv_from_pool.
+
+Theorem C16_def_closed_round : forall acts adv L Fs Os pool,
+  closed_round acts adv (L, Fs, Os, pool) =
+  (op1 <- oacts_apply (Os, pool) acts ;;
+   ma <- deliver_all (L, Fs) adv ;;
+   mb <- star_round (fst ma) (snd ma) ;;
+   Ok (fst mb, snd mb, fst op1, snd op1 ++ r_msgs (fst ma) ++ concat (map r_msgs (snd ma)))).
+Proof. exact def_closed_round. Qed.
+Print Assumptions C16_def_closed_round.
+
+Theorem C16_def_round_ok : forall ids l acts adv L Fs Os pool,
+  round_ok ids l acts adv (L, Fs, Os, pool) <->
+  oacts_ok ids l (Os, pool) acts /\
+  forall op1, oacts_apply (Os, pool) acts = Ok op1 -> adv_from_pool ids l (snd op1) adv.
+Proof. exact def_round_ok. Qed.
+Print Assumptions C16_def_round_ok.
+
+Theorem C16_def_closed_rounds : forall sched st,
+  closed_rounds sched st =
+  match sched with
+  | [] => Ok st
+  | (acts, adv) :: rest => st' <- closed_round acts adv st ;; closed_rounds rest st'
+  end.
+Proof. exact def_closed_rounds. Qed.
+Print Assumptions C16_def_closed_rounds.
+
+Theorem C16_def_sched_ok : forall ids l sched st,
+  sched_ok ids l sched st <->
+  match sched with
+  | [] => True
+  | (acts, adv) :: rest =>
+      round_ok ids l acts adv st /\
+      forall st', closed_round acts adv st = Ok st' -> sched_ok ids l rest st'
+  end.
+Proof. exact def_sched_ok. Qed.
+Print Assumptions C16_def_sched_ok.
+
+Theorem C16_def_closed_start : forall L Fs Os,
+  closed_start L Fs Os <->
+  window_start L Fs /\
+  In (r_vote L) (r_id L :: map r_id Fs) /\
+  Forall (fun F => In (r_vote F) (r_id L :: map r_id Fs)) Fs /\
+  Forall (fun O =>
+    ~ In (r_id O) (r_id L :: map r_id Fs) /\ r_pre_vote O = true /\ r_term O <= r_term L /\
+    r_state O <> Leader /\ confq (map r_id Fs) (r_id L) O /\
+    votes_ok (map r_id Fs) (r_id L) O /\ r_msgs O = []) Os.
+Proof. exact def_closed_start. Qed.
+Print Assumptions C16_def_closed_start.
+
+Theorem C16_def_closed_sched : forall L Fs Os sched,
+  closed_sched L Fs Os sched <-> sched_ok (map r_id Fs) (r_id L) sched (L, Fs, Os, []).
+Proof. exact def_closed_sched. Qed.
+Print Assumptions C16_def_closed_sched.
+
+(* THE CLOSED WINDOW *)
+Theorem C16_closed_window :
+  forall L Fs Os sched L' Fs' Os' pool',
+    closed_start L Fs Os -> closed_sched L Fs Os sched ->
+    closed_rounds sched (L, Fs, Os, []) = Ok (L', Fs', Os', pool') ->
+    r_state L' = Leader /\ r_term L' = r_term L /\ r_leader_id L' = r_id L /\ r_id L' = r_id L /\
+    Forall2 (fun F F' =>
+      r_id F' = r_id F /\ r_vote F' = r_vote F /\ r_state F' = Follower /\
+      r_term F' = r_term L /\ r_leader_id F' = r_id L /\ r_check_quorum F' = true /\
+      r_election_elapsed F' < r_election_timeout F') Fs Fs' /\
+    Forall (fun O' => r_term O' <= r_term L /\ r_state O' <> Leader /\ r_pre_vote O' = true /\
+                      ~ In (r_id O') (r_id L :: map r_id Fs)) Os' /\
+    Forall (PC (map r_id Fs) (r_id L) (r_term L)) pool'.
+Proof. exact closed_window. Qed.
+Print Assumptions C16_closed_window.
+
+(* 9: leader 1, follower 2, outsider 3: cut off for thirty rounds, then rejoining for six *)
+Example C16_closed_example_start : closed_start xs_leader [xw_F2] [xs_follower].
+Proof. exact xc_start. Qed.
+
+Example C16_closed_example_sched : closed_sched xs_leader [xw_F2] [xs_follower] xc_sched.
+Proof. exact xc_sched_ok. Qed.
+
+Example C16_closed_example_isolated :
+  exists L' F' O' pool',
+    closed_rounds (firstn 30 xc_sched) xc_st0 = Ok (L', [F'], [O'], pool') /\
+    r_state L' = Leader /\ r_term L' = 2 /\
+    r_state O' = PreCandidate /\ r_term O' = 2 /\
+    length (filter (fun m => (m_type m =? MsgRequestPreVote) && (m_from m =? 3)) pool') = 4%nat /\
+    Forall (fun m => (m_type m =? MsgRequestPreVote) && (m_from m =? 3) = true -> m_term m = 3) pool'.
+Proof. exact xc_isolated. Qed.
+
+Example C16_closed_example_rejoined :
+  exists L' F' O' pool',
+    closed_rounds xc_sched xc_st0 = Ok (L', [F'], [O'], pool') /\
+    r_state L' = Leader /\ r_term L' = 2 /\
+    r_state F' = Follower /\ r_term F' = 2 /\ r_vote F' = 1 /\
+    r_state O' = Follower /\ r_term O' = 2 /\ r_leader_id O' = 1 /\
+    length xc_sched = 36%nat.
+Proof. exact xc_run. Qed.
